@@ -699,3 +699,59 @@ Proof.
   - destruct H as (t' & ->). exists t'. reflexivity.
   - destruct H as (t' & ->). exists t'. reflexivity.
 Qed.
+
+(* ---- check_current on the static kernel ------------------------------------------------
+   The premise [chk_static_ok] reduced to the kernel's d_path contract: if the routine
+   [g] that reads the kernel's rendering of a descriptor (as_unsafe_path) returns, for a
+   descriptor open on the object with path [exp] below the root, an absolute path whose
+   components are the root directory's components followed by [exp], then check_current
+   built on [g] is a check routine as the refinement theorem needs it. *)
+From PV Require Import CheckProofs.
+
+Definition names_ok (s : fs) : Prop := forall d n c, FSModel.lookup s d n = Some c -> name_ok n.
+
+Definition getpath_ok (s : fs) (rootcomps : list bytes) (g : Z -> prog (result bytes ekind)) : Prop :=
+  forall t fd o exp, tget t fd = Some o -> FSModel.descend s ROOT exp = Some o ->
+    exists p, run s t (g fd) = Done t (Ok p) /\ is_abs p = true /\ nf p = rootcomps ++ exp.
+
+Lemma descend_names s : names_ok s -> forall exp c o, FSModel.descend s c exp = Some o -> Forall name_ok exp.
+Proof.
+  intros Hn exp. induction exp as [|n exp IH]; intros c o H; [constructor|].
+  cbn [FSModel.descend] in H. destruct (FSModel.lookup s c n) as [d|] eqn:El; [|discriminate].
+  constructor; [exact (Hn c n d El)|exact (IH d o H)].
+Qed.
+
+Lemma list_beq_refl x : list_beq x x = true.
+Proof. induction x as [|a x IH]; [reflexivity|]. cbn [list_beq]. rewrite beq_refl, IH. reflexivity. Qed.
+
+Lemma is_abs_push_all cs : forall acc, is_abs acc = true -> is_abs (push_all acc cs) = true.
+Proof.
+  induction cs as [|c t IH]; intros acc H; cbn [push_all]; [exact H|]. apply IH.
+  destruct acc as [|x acc]; [discriminate|]. cbn [rev].
+  destruct (rev acc ++ [x]) as [|y l] eqn:E; [apply app_eq_nil in E; destruct E; discriminate|].
+  destruct (N.eqb y SLASH); cbn [app is_abs]; exact H.
+Qed.
+
+Lemma path_eq_of_nf p q : is_abs p = true -> is_abs q = true -> nf p = nf q -> path_eq p q = true.
+Proof.
+  intros Hp Hq Hn. unfold path_eq, path_norm. rewrite Hp, Hq. cbn [negb andb Bool.eqb].
+  change (filter (fun c => negb (is_nil c || is_dot c)) (raw_components p)) with (nf p).
+  change (filter (fun c => negb (is_nil c || is_dot c)) (raw_components q)) with (nf q).
+  rewrite Hn. apply list_beq_refl.
+Qed.
+
+Theorem check_current_static s rootcomps g :
+  names_ok s -> getpath_ok s rootcomps g -> chk_static_ok s (check_current_gen g).
+Proof.
+  intros Hnames Hg t cur root exp o Hroot Hcur Hexp.
+  unfold check_current_gen, bindR.
+  destruct (Hg t root ROOT [] Hroot eq_refl) as (p1 & Hrun1 & Habs1 & Hnf1). rewrite app_nil_r in Hnf1.
+  destruct (Hg t cur o exp Hcur Hexp) as (p2 & Hrun2 & Habs2 & Hnf2).
+  rewrite run_bind, Hrun1. rewrite run_bind, Hrun2.
+  assert (E : path_eq p2 (push_all p1 ([DOT] :: exp)) = true).
+  { apply path_eq_of_nf; [exact Habs2|apply is_abs_push_all, Habs1|].
+    rewrite nf_push_all, Hnf1, Hnf2. cbn [map concat]. change (nf [DOT]) with (@nil bytes). cbn [app].
+    rewrite (concat_nf_names exp (descend_names s Hnames exp ROOT o Hexp)). reflexivity. }
+  rewrite E. cbn [negb]. rewrite run_bind, Hrun1.
+  rewrite (path_eq_of_nf p1 p1 Habs1 Habs1 eq_refl). reflexivity.
+Qed.
